@@ -2262,6 +2262,7 @@ func (e *CoreExtension) functionParent(args ...interface{}) (interface{}, error)
 		// Create a clean context without parent() function to prevent recursion
 		cleanCtx := NewRenderContext(ctx.env, ctx.context, ctx.engine)
 		cleanCtx.sandboxed = ctx.sandboxed
+		cleanCtx.rootTemplate = ctx.rootTemplate
 		defer cleanCtx.Release()
 
 		// Copy all blocks and variables
